@@ -227,10 +227,13 @@ def reset():
   tq.LOW_RESOLUTION_TIME_SOURCE = tq.LowResolutionTime()
   tq.LOW_RESOLUTION_TIMER_QUEUE = tq.TimerQueue(
       time_source=tq.LOW_RESOLUTION_TIME_SOURCE.Get, resolution=1)
-  sink.GLOBAL_TIMER_QUEUE = tq.GLOBAL_TIMER_QUEUE
-  varz.LOW_RESOLUTION_TIME_SOURCE = tq.LOW_RESOLUTION_TIME_SOURCE
-  aperture.LOW_RESOLUTION_TIME_SOURCE = tq.LOW_RESOLUTION_TIME_SOURCE
-  aperture.LOW_RESOLUTION_TIMER_QUEUE = tq.LOW_RESOLUTION_TIMER_QUEUE
+  # rebind every by-name import of the three module-level timer objects
+  for name, mod in list(sys.modules.items()):
+    if mod is None or not name.startswith('scales') or mod is tq:
+      continue
+    for attr in ('GLOBAL_TIMER_QUEUE', 'LOW_RESOLUTION_TIME_SOURCE', 'LOW_RESOLUTION_TIMER_QUEUE'):
+      if attr in getattr(mod, '__dict__', {}):
+        setattr(mod, attr, getattr(tq, attr))
   varz.VarzReceiver.VARZ_DATA.clear()
   core.ClientProxyBuilder._PROXY_TYPE_CACHE.clear()
   core.Scales.SERVICE_REGISTRY.clear()
